@@ -103,6 +103,10 @@ class FString(object):
         return filter(self.is_correct_ast, actual_candidates)
 
     def str_for(self, s, quote):
+        if self.pep701:
+            # Since Python 3.12 the literal parts of a nested f-string may use backslash escapes
+            return str(MiniString(s, quote)).replace('{', '{{').replace('}', '}}')
+
         return s.replace('{', '{{').replace('}', '}}')
 
 
@@ -380,6 +384,10 @@ class FormatSpec(object):
         return candidates
 
     def str_for(self, s):
+        if self.pep701:
+            # Since Python 3.12 backslash escapes are recognised in a format spec
+            s = s.replace('\\', '\\\\').replace('\n', '\\n').replace('\r', '\\r').replace('\0', '\\x00')
+
         return s.replace('{', '{{').replace('}', '}}')
 
 
